@@ -220,8 +220,8 @@ def errd_read(ctx, P, fns):
             ctx.check(r, harmless, k, f.where(c), "when %s fails the function only logs and carries on, and the unread value is used before any later read can fail" % cal)
 
 
-def errd_null(ctx, P, fns):
-    r = ctx.rule("ERRD.null", "the result of a loader that can return NULL is tested before it is dereferenced or handed on", floor=8)
+def errd_null(ctx, P, fns, floor=8, what="loader", skip=()):
+    r = ctx.rule("ERRD.null", "the result of a %s that can return NULL is tested before it is dereferenced, and before success is reported when it is kept in an object" % what, floor=floor)
     # callees that have a `return NULL` path
     nullable = set()
     for _round in range(4):
@@ -252,6 +252,7 @@ def errd_null(ctx, P, fns):
                         if paths._is_zero(f, val) or (f.k(sv) == "Call" and f.nodes[sv].get("callee") in nullable):
                             nullable.add(f.name)
     nullable -= {"s3file_nextline", "s3file_nextword", "s3file_copy_nextword"}
+    nullable -= set(skip)
     for f in fns:
         for c in f.calls():
             cal = f.nodes[c].get("callee")
@@ -305,8 +306,28 @@ def errd_null(ctx, P, fns):
                 if nd["k"] == "Member" and nd.get("arrow") and f.canon(f.ch(i)[0], subst=False) in lhs_paths:
                     if i in set(f.walk(start)):
                         continue
-                    if paths.may_reach(f, start, lambda e, i=i: e == i or e in _anc(f, i)) and not paths.guarded_from(f, start, _elem_of(f, i), nonnull):
+                    redefs = set(st["node"] for st in paths.stores(f) if st["path"] in lhs_paths and st["op"] == "=" and st["node"] not in set(f.ancestors(c)) and st["node"] != start)
+                    tgt = _elem_of(f, i)
+                    edges = set(paths.guard_edges(f, nonnull))
+                    if f.cfg.path_exists(paths.pos_of(f, start), lambda e, tgt=tgt: e == tgt, is_barrier=lambda e: e in redefs, removed_edges=edges):
                         bad = i
+                        break
+            if bad is None:
+                # handed to a function that dereferences that parameter without testing it
+                for c2 in f.calls():
+                    if c2 == c or c2 in set(f.walk(start)):
+                        continue
+                    for ai, a in enumerate(f.args(c2)):
+                        if f.canon(a, subst=False) not in lhs_paths:
+                            continue
+                        for cal2 in P.callees(f, c2):
+                            for g in P.fn_index.get(cal2, []):
+                                if ai < len(g.params) and _derefs_param_unguarded(g, ai):
+                                    redefs = set(st["node"] for st in paths.stores(f) if st["path"] in lhs_paths and st["op"] == "=" and st["node"] != start and st["node"] not in set(f.ancestors(c)))
+                                    edges = set(paths.guard_edges(f, nonnull))
+                                    if f.cfg.path_exists(paths.pos_of(f, start), lambda e, c2=c2: e == c2, is_barrier=lambda e: e in redefs, removed_edges=edges):
+                                        bad = c2
+                    if bad is not None:
                         break
             if bad is None and any("->" in lp for lp in lhs_paths):
                 # kept in the object: a success return must not be reachable without the test
@@ -321,6 +342,73 @@ def errd_null(ctx, P, fns):
                     ctx.bad(r, key(f, "%s#%d" % (cal, n)), f.where(c), "%s can return NULL (damaged file); the result is kept in `%s` and the function can still return success without having tested it" % (cal, lhs_paths[0]))
                     continue
             ctx.check(r, bad is None, key(f, "%s#%d" % (cal, n)), f.where(c), "%s can return NULL (damaged file) but `%s` is dereferenced at line %s without a test" % (cal, lhs_paths[0], f.line(bad) if bad is not None else "?"))
+
+
+_DEREF_CACHE = {}
+_KEEP_CACHE = {}
+
+
+def _keeps_param(P, g, ai, depth=0):
+    """the function may keep its ai-th parameter beyond the call: stores it into memory, returns it,
+    releases it, or passes it on to a function that does (two levels; unknown callees keep)"""
+    k = (g.name, g.unit, ai)
+    if k in _KEEP_CACHE:
+        return _KEEP_CACHE[k]
+    _KEEP_CACHE[k] = True          # recursion guard: conservative
+    if ai >= len(g.params):
+        return True
+    pname = g.params[ai][0]
+    decl = g.params[ai][2]
+    res = False
+    for st in paths.stores(g):
+        if st["rhs"] is not None and st["kind"] in ("Member", "Subscript", "Un") and any(g.k(x) == "DeclRef" and g.nodes[x].get("decl") == decl for x in g.walk(st["rhs"])):
+            # element reads like *p or p[i] copy a character, not the pointer
+            top = g.strip(st["rhs"])
+            if g.k(top) in ("DeclRef", "Bin", "Cast", "Cond"):
+                res = True
+        if st["rhs"] is not None and st["kind"] == "DeclRef" and g.canon(g.strip(st["rhs"]), subst=False) == pname and st["op"] == "=":
+            res = True        # aliased into another local: give up
+    for rt in g.find("Return"):
+        if g.ch(rt) and any(g.k(x) == "DeclRef" and g.nodes[x].get("decl") == decl for x in g.walk(g.ch(rt)[0])) and "*" in g.d.get("ret", ""):
+            res = True
+    for v in g.find("Var"):
+        if g.ch(v) and "*" in g.nodes[v].get("t", "") and any(g.k(x) == "DeclRef" and g.nodes[x].get("decl") == decl for x in g.walk(g.ch(v)[0])):
+            res = True
+    if not res:
+        for c in g.calls():
+            cal = g.nodes[c].get("callee")
+            for aj, a in enumerate(g.args(c)):
+                if g.canon(g.strip(a), subst=False) != pname:
+                    continue
+                if cal in FREES:
+                    res = True
+                elif cal in ("strcmp", "strlen", "strncmp", "memcpy", "memcmp", "strchr", "strrchr", "atoi", "atof", "strtol", "err_msg", "err_msg_system", "__ckd_salloc__", "strcpy", "strcat", "snprintf", "sscanf", "strcasecmp", "strncasecmp", "hash_table_lookup", "hash_table_lookup_int32", "hash_table_lookup_bkey", "strstr", "isspace_c", "toupper", "tolower"):
+                    continue
+                else:
+                    tg = P.fn_index.get(cal, []) if cal else []
+                    if not tg or depth >= 2 or any(_keeps_param(P, h, aj, depth + 1) for h in tg):
+                        res = True
+    _KEEP_CACHE[k] = res
+    return res
+
+
+def _derefs_param_unguarded(g, ai):
+    """the function dereferences its ai-th parameter on some path without a dominating non-NULL test"""
+    k = (g.name, g.unit, ai)
+    if k in _DEREF_CACHE:
+        return _DEREF_CACHE[k]
+    pname = g.params[ai][0]
+    res = False
+    for i in g.walk():
+        nd = g.nodes[i]
+        if nd["k"] == "Member" and nd.get("arrow") and g.canon(g.ch(i)[0], subst=False) == pname:
+            def nn(fn, cc, pol, pname=pname):
+                return paths.cond_atoms(fn, cc, pol, subst=False) == (pname, True)
+            if not paths.guarded(g, _elem_of(g, i), nn):
+                res = True
+                break
+    _DEREF_CACHE[k] = res
+    return res
 
 
 def _last_elem(f, stmt):
@@ -841,16 +929,16 @@ def _error_exits(f):
 
 
 # -------------------------------------------------------------------------------- unwinding
-def unwind_rule(ctx, P, fns):
-    r = ctx.rule("UNWIND", "a local buffer released in a loader is not released or read again on any later path, and a temporary buffer allocated in a loader (never stored into the object or returned) is released on every exit", floor=10)
+def unwind_rule(ctx, P, fns, floor=10, only_readers=True, extra_allocs=(), extra_frees=()):
+    r = ctx.rule("UNWIND", "a local buffer released in a loader / parser is not released or read again on any later path, a buffer handed to the caller is not released afterwards, and a temporary buffer (never stored into the object or returned) is released on every exit", floor=floor)
     for f in fns:
-        if not any(f.nodes[c].get("callee") in READS for c in f.calls()) and not any("s3file_t" in prm[1] for prm in f.params):
+        if only_readers and not any(f.nodes[c].get("callee") in READS for c in f.calls()) and not any("s3file_t" in prm[1] for prm in f.params):
             continue
         # locals assigned from an allocator
         owned = {}
         for c in f.calls():
             cal = f.nodes[c].get("callee")
-            if cal in ALLOCS and cal not in ("__ckd_alloc_2d_ptr", "__ckd_alloc_3d_ptr") or cal in ("s3file_copy_header_value", "s3file_copy_header_name", "s3file_copy_nextword", "__ckd_salloc__"):
+            if cal in ALLOCS and cal not in ("__ckd_alloc_2d_ptr", "__ckd_alloc_3d_ptr") or cal in ("s3file_copy_header_value", "s3file_copy_header_name", "s3file_copy_nextword", "__ckd_salloc__") or cal in extra_allocs:
                 p = f.up(c)
                 while p is not None and f.k(p) in ("Paren", "ICast", "Cast"):
                     p = f.parent[p]
@@ -876,10 +964,12 @@ def unwind_rule(ctx, P, fns):
                 args = f.args(c)
                 for ai, a in enumerate(args):
                     if paths.local_of(f, a) == d:
-                        if cal in FREES:
+                        if cal in FREES or cal in extra_frees:
                             frees.append(c)
-                        elif cal not in ("s3file_get", "memcpy", "memset", "vector_sum_norm", "vector_floor", "vector_nz_floor", "strcmp", "strlen", "atof", "atoi", "err_msg", "logmath_log", "strncmp", "sscanf", "strtol", "strchr"):
-                            escapes = True
+                        elif cal not in ("s3file_get", "memcpy", "memset", "vector_sum_norm", "vector_floor", "vector_nz_floor", "strcmp", "strlen", "atof", "atoi", "err_msg", "logmath_log", "strncmp", "sscanf", "strtol", "strchr", "err_msg_system", "strtod", "strcpy", "strcat", "snprintf", "sprintf", "strrchr", "strstr"):
+                            tg = P.fn_index.get(cal, [])
+                            if not tg or any(_keeps_param(P, g, ai) for g in tg):
+                                escapes = True
             for s in paths.stores(f):
                 if s["rhs"] is not None and paths.local_of(f, s["rhs"]) == d and s["kind"] in ("Member", "Un", "Subscript"):
                     escapes = True
